@@ -567,7 +567,10 @@ theorem unmarshalVariant_enc (A : Char → Nat) (hA : AlignOK A) (le : Bool) (hv
   unfold unmarshalVariant
   simp only [encVariant, List.cons_append, List.nil_append, List.append_assoc]
   rw [unmarshalSignature_code]
+  have hnz : ¬ (A hv.ty.code = 0) := by
+    rw [hal]; have := specAlign_pos hv.ty; omega
   simp only [ofCode_code]
+  rw [if_neg hnz]
   have h1 : (Rd.mk off (1 :: sigByte hv.ty :: 0 :: (zeros (padLen (specAlign hv.ty) (off + 3)) ++
       (encValue (endianOf le) hv ++ rest)))).adv 3 =
       ⟨off + 3, zeros (padLen (specAlign hv.ty) (off + 3)) ++ (encValue (endianOf le) hv ++ rest)⟩ := by
